@@ -142,6 +142,51 @@ def rule_label(ctx: Ctx) -> RuleReport:
             rep.ok()
         else:
             rep.fail(Finding("C10-LABEL", ARCH, fi.qual, short(c), "the archive path is not passed through to the per-member step", line=c.lineno))
+    # a member is read through its own directory record (ZipInfo / TarInfo), never by name: two members may share a name
+    # (tar -r revisions, zip updates) and a read by name returns the last one for both
+    for fq, (meth, lister) in {"_extract_from_zip_optimized": ("read", "infolist"), "_extract_from_tar_optimized": ("extractfile", "getmembers")}.items():
+        fi = ctx.p.func(ARCH, fq)
+
+        def kind_of(e, depth=0):
+            """'record' when e is the object a listing loop iterates, 'name' when it is a string taken from it"""
+            if depth > 5 or e is None:
+                return "unknown"
+            if isinstance(e, ast.Attribute):
+                return "name"
+            if isinstance(e, ast.Call):
+                return "name"
+            if isinstance(e, ast.Name):
+                for l in walk_own(fi.node):
+                    if isinstance(l, ast.For) and isinstance(l.target, ast.Name) and l.target.id == e.id and isinstance(l.iter, ast.Call) and isinstance(l.iter.func, ast.Attribute) and l.iter.func.attr == lister:
+                        return "record"
+                for a in walk_own(fi.node):
+                    if isinstance(a, ast.Assign) and len(a.targets) == 1 and isinstance(a.targets[0], ast.Name) and a.targets[0].id == e.id:
+                        return kind_of(a.value, depth + 1)
+                for l in walk_own(fi.node):
+                    if isinstance(l, ast.For):
+                        tg = l.target
+                        if isinstance(tg, ast.Tuple):
+                            for i, el in enumerate(tg.elts):
+                                if isinstance(el, ast.Name) and el.id == e.id and isinstance(l.iter, ast.Name):
+                                    for ap in walk_own(fi.node):
+                                        if isinstance(ap, ast.Call) and isinstance(ap.func, ast.Attribute) and ap.func.attr == "append" and isinstance(ap.func.value, ast.Name) and ap.func.value.id == l.iter.id and ap.args and isinstance(ap.args[0], ast.Tuple) and i < len(ap.args[0].elts):
+                                            return kind_of(ap.args[0].elts[i], depth + 1)
+                for a in walk_own(fi.node):
+                    if isinstance(a, ast.Assign) and len(a.targets) == 1 and isinstance(a.targets[0], ast.Name) and a.targets[0].id == e.id:
+                        return kind_of(a.value, depth + 1)
+            return "unknown"
+
+        reads = [c for c in calls_in(fi) if isinstance(c.func, ast.Attribute) and c.func.attr == meth and c.args]
+        if not reads:
+            raise AnalysisError(f"C10-LABEL: {fq} no longer reads members with .{meth}(...)")
+        for c in reads:
+            k = kind_of(c.args[0])
+            if k == "record":
+                rep.ok({"site": fq, "read": short(c, 40), "by": "directory record"})
+            elif k == "name":
+                rep.fail(Finding("C10-LABEL", ARCH, fq, f"{meth} by name: " + anorm(c, fi.node), f"`{short(c, 50)}` reads the member by its name instead of its directory record: when a path occurs twice in the archive every occurrence gets the bytes of the last one", line=c.lineno))
+            else:
+                raise AnalysisError(f"C10-LABEL: cannot tell what `{short(c, 50)}` in {fq} is applied to")
     # inside the step: path label and bytes
     from sa.engine.shape import compare
 
@@ -272,6 +317,12 @@ def rule_endian(ctx: Ctx) -> RuleReport:
                     rep.ok({"fn": fi.qual, "conversion": short(c, 50)})
                 else:
                     rep.fail(Finding("C10-ENDIAN", SZ, fi.qual, f"{c.func.attr} byteorder {ov!r}", f"`{short(c, 60)}` converts with byte order {ov!r}: the 7z format is little-endian throughout (the continuation bytes of a variable-length number are its low-order bytes, least significant first); numbers above 16383 are decoded with their bytes swapped", line=c.lineno))
+    # names are UTF-16LE code units: a terminator is a zero UNIT; a byte-wise search for two zero bytes also hits the high byte of one
+    # character followed by the low byte of the next ('a\u4e00' = 61 00 00 4e)
+    for fi in m.functions.values():
+        for c in ast.walk(fi.node):
+            if isinstance(c, ast.Call) and isinstance(c.func, ast.Attribute) and c.func.attr in ("find", "index", "split", "partition") and c.args and ctx.folder.fold(fi.module, c.args[0]) == b"\x00\x00":
+                rep.fail(Finding("C10-ENDIAN", SZ, fi.qual, f"byte-wise search for the UTF-16 terminator: .{c.func.attr}", f"`{short(c, 60)}` looks for two zero bytes at any offset: in UTF-16 data that also matches across two characters (...00 | 00...), names are cut short and every later name shifts", line=c.lineno))
     return rep
 
 
